@@ -617,3 +617,10 @@ package netceptor
 //@   requires c != nil && c.qs != nil
 //@   site call Write SAMEBUF: [C03] requires arg0 == b
 //@   ensures DELEGATE: [C03] result.0 == lastcall("Write", 0) && result.1 == lastcall("Write", 1)
+
+// a stream is torn down by an "unreachable" notice only when the notice says that the peer's service is unknown
+// and it is about this stream's peer (a transient "no route" during re-routing must not end the stream)
+//@ func monitorUnreachable
+//@   tags C03 C16
+//@   requires pc != nil && cancel != nil
+//@   site call cancel@2 ONLYSERVICEUNKNOWN: [C03 C16] requires msg.Problem == ProblemServiceUnknown && msg.ToNode == remoteAddr.node && msg.ToService == remoteAddr.service
